@@ -25,12 +25,23 @@ WhyDe(r) ==
   ELSE IF \E i \in DOMAIN r.out.decoded : r.out.decoded[i].lib # r.out.decoded[i].serde_json THEN "decode"
   ELSE IF \E i \in DOMAIN r.out.decoded : ~r.out.decoded[i].roundtrip THEN "roundtrip"
   ELSE "none"
-Why(r) == IF r.kind = "ser" THEN WhySer(r) ELSE WhyDe(r)
+(* real std / derived types, whose impls may branch on properties of the format: no tree to compute an image from, so the relations
+   of the property are checked on the observations: the library's image IS serde_json's image, searching gives that image, and
+   decoding -- from the library's own image and from the JSON text -- yields what serde_json yields (the original value) *)
+WhyReal(r) ==
+  LET o == r.out IN
+  IF "image" \notin DOMAIN o THEN "crash"
+  ELSE IF o.image # o.serde_json THEN "image"
+  ELSE IF o.searched # o.image THEN "searched"
+  ELSE IF o.dec_text # o.dec_serde_json \/ o.dec_own # o.dec_serde_json THEN "decode"
+  ELSE "none"
+Why(r) == IF r.kind = "ser" THEN WhySer(r) ELSE IF r.kind = "real" THEN WhyReal(r) ELSE WhyDe(r)
 Allowed(r) == Why(r) = "none"
 Expected(r) == IF r.kind = "ser" THEN [why |-> Why(r), image |-> Image(r.tree)]
+               ELSE IF r.kind = "real" THEN [why |-> Why(r), image |-> [t |-> "same-as-serde_json"]]
                ELSE [why |-> Why(r), image |-> [t |-> "null"]]
 Explains(r) == <<>>
-NonTrivial(r) == r.kind = "de" \/ r.tree.k \notin {"bool", "unit", "none"}
+NonTrivial(r) == r.kind \in {"de", "real"} \/ r.tree.k \notin {"bool", "unit", "none"}
 Unjudged(r) == FALSE
 J == INSTANCE JudgeLoop
 Spec == J!Spec
